@@ -1,7 +1,9 @@
 import KcpVerif.Model.Kcp
+import KcpVerif.Lemmas.KcpLive
+import KcpVerif.Lemmas.KcpProbe
 /-! C03 — a stalled reader throttles the sender and transfer resumes afterwards. -/
 namespace KcpVerif.Props
-open KcpVerif KcpVerif.Gen KcpVerif.Kcp
+open KcpVerif KcpVerif.Gen KcpVerif.Kcp KcpVerif.Live
 
 /-- the probe back-off stays between `IKCP_PROBE_INIT` and `IKCP_PROBE_LIMIT` -/
 theorem C03_nextProbeWait_bounds (w : U32) (hlim : w ≤ u32 IKCP_PROBE_LIMIT) :
@@ -55,5 +57,328 @@ theorem C03_probe_fires (k : Kcp) (now : U32) (h0 : k.rmt_wnd = 0) (h1 : k.probe
 theorem C03_probe_reset (k : Kcp) (now : U32) (h : k.rmt_wnd ≠ 0) :
     (probePhase k now).probe_wait = 0 ∧ (probePhase k now).ts_probe = 0 := by
   unfold probePhase; rw [if_neg h]; exact ⟨rfl, rfl⟩
+
+/-! ### `wask_answered`
+
+`inStep` (Lemmas/KcpInput.lean) is the body of one iteration of `inputLoop` for a segment that passed
+the header checks; `inSt`/`inK2` are the loop result and the connection before the closing flush of
+`input` (`input_eq`, `inputLoop_succ` are proved by `rfl`). -/
+
+/-- A WASK processed by `inputLoop` sets the ASK_TELL bit of `probe` (whatever `una`, `wnd`, packet
+type); later segments of the same datagram and the rest of `Input` never clear it; the next flush
+of EITHER type writes a WINS header carrying `wnd_unused` as computed at that flush and
+`una = rcv_nxt`, and clears `probe` (the header is in the output unless the flush panics). -/
+theorem C03_wask_answered (regular : Bool) (conv : U32) (cmd frg : BitVec 8) (wnd : BitVec 16) (ts sn una : U32)
+    (payload : Bytes) (st : InLoop) (hc : cmd.toNat = IKCP_CMD_WASK) :
+    (inStep regular conv cmd frg wnd ts sn una payload st).k.probe = st.k.probe ||| u32 IKCP_ASK_TELL ∧
+    (inStep regular conv cmd frg wnd ts sn una payload st).k.probe &&& u32 IKCP_ASK_TELL ≠ 0 ∧
+    (∀ (st' : InLoop) fuel data, st'.k.probe &&& u32 IKCP_ASK_TELL ≠ 0 →
+      (inputLoop regular fuel data st').k.probe &&& u32 IKCP_ASK_TELL ≠ 0) ∧
+    (∀ (k : Kcp) full now, k.probe &&& u32 IKCP_ASK_TELL ≠ 0 →
+      (flush k full now).k.probe = 0 ∧
+      ((flush k full now).panic = false → ∃ pre post, (flush k full now).outs.flatten =
+        pre ++ encodeHdr k.conv (BitVec.ofNat 8 IKCP_CMD_WINS) 0 (wndUnused k) (flAck k).sc.ts (flAck k).sc.sn
+          k.rcv_nxt 0 ++ post)) := by
+  have h1 : (inStep regular conv cmd frg wnd ts sn una payload st).k.probe = st.k.probe ||| u32 IKCP_ASK_TELL := by
+    rw [inStep_probe, if_pos hc]
+  exact ⟨h1, by rw [h1]; exact tell_or _, fun st' fuel data h => inputLoop_tell_mono regular fuel data st' h,
+    fun k full now h => flush_wins k full now h⟩
+
+/-- non-vacuity: a WASK datagram through `Input`, then an ack-only flush: exactly one WINS header -/
+example : (input (Kcp.new 7) [7,0,0,0, 83,0, 32,0, 0,0,0,0, 0,0,0,0, 0,0,0,0, 0,0,0,0] true false 0).k.probe = 2 ∧
+    (flush (input (Kcp.new 7) [7,0,0,0, 83,0, 32,0, 0,0,0,0, 0,0,0,0, 0,0,0,0, 0,0,0,0] true false 0).k false 5).outs =
+      [encodeHdr 7 84 0 32 0 0 0 0] := by decide
+
+/-- the same at the level of `Input`: if the parse loop ends with ASK_TELL set (e.g. the datagram
+contained a WASK) and `Input` returns 0, then either `Input` flushed and the WINS is in ITS output
+(and `probe` is clear), or the bit is still set in the resulting state for the next flush. -/
+theorem C03_wask_answered_input (k : Kcp) (data : Bytes) (regular ackNoDelay : Bool) (now : U32)
+    (ht : (inSt k data regular).k.probe &&& u32 IKCP_ASK_TELL ≠ 0)
+    (hr : (input k data regular ackNoDelay now).ret = 0) (hp : (input k data regular ackNoDelay now).panic = false) :
+    (input k data regular ackNoDelay now).k.probe &&& u32 IKCP_ASK_TELL ≠ 0 ∨
+    ((input k data regular ackNoDelay now).k.probe = 0 ∧
+      ∃ pre post, (input k data regular ackNoDelay now).outs.flatten =
+        pre ++ encodeHdr k.conv (BitVec.ofNat 8 IKCP_CMD_WINS) 0 (wndUnused (inK2 k data regular now))
+          (flAck (inK2 k data regular now)).sc.ts (flAck (inK2 k data regular now)).sc.sn
+          (inK2 k data regular now).rcv_nxt 0 ++ post) := by
+  have h2 : (inK2 k data regular now).probe &&& u32 IKCP_ASK_TELL ≠ 0 ∧ (inK2 k data regular now).conv = k.conv := by
+    unfold inK2
+    have hcw : ∀ a old, (cwndOnAck a old).probe = a.probe ∧ (cwndOnAck a old).conv = a.conv := by
+      intro a old; unfold cwndOnAck; simp only []; repeat' split
+      all_goals exact ⟨rfl, rfl⟩
+    have hua : ∀ a rtt, (updateAck a rtt).probe = a.probe ∧ (updateAck a rtt).conv = a.conv := by
+      intro a rtt; unfold updateAck smoothRtt; simp only []; repeat' split
+      all_goals exact ⟨rfl, rfl⟩
+    have hconv : (inSt k data regular).k.conv = k.conv := by
+      unfold inSt
+      apply inputLoop_induct regular (fun x => x.k.conv = k.conv)
+      · intro st r h; exact h
+      · intro conv cmd frg wnd ts sn una payload st _ _ _ h
+        obtain ⟨_, _, _, _, _, _, _, hf⟩ := inStep_frame regular conv cmd frg wnd ts sn una payload st
+        rw [hf]; exact h
+      · rfl
+    rw [(hcw _ _).1, (hcw _ _).2]
+    split
+    · rw [(hua _ _).1, (hua _ _).2]; exact ⟨ht, hconv⟩
+    · exact ⟨ht, hconv⟩
+  rw [input_eq] at hr hp ⊢
+  by_cases c1 : data.length < IKCP_OVERHEAD
+  · rw [if_pos c1] at hr; simp at hr
+  · rw [if_neg c1] at hr hp ⊢
+    by_cases c2 : (inSt k data regular).panic = true
+    · rw [if_pos c2] at hp; simp at hp
+    · rw [if_neg c2] at hr hp ⊢
+      by_cases c3 : (inSt k data regular).ret < 0
+      · rw [if_pos c3] at hr; simp only [] at hr; omega
+      · rw [if_neg c3] at hp ⊢
+        have hfl : ∀ full, (flush (inK2 k data regular now) full now).panic = false →
+            (flush (inK2 k data regular now) full now).k.probe = 0 ∧
+            ∃ pre post, (flush (inK2 k data regular now) full now).outs.flatten =
+              pre ++ encodeHdr k.conv (BitVec.ofNat 8 IKCP_CMD_WINS) 0 (wndUnused (inK2 k data regular now))
+                (flAck (inK2 k data regular now)).sc.ts (flAck (inK2 k data regular now)).sc.sn
+                (inK2 k data regular now).rcv_nxt 0 ++ post := by
+          intro full hpf
+          have := flush_wins (inK2 k data regular now) full now h2.1
+          rw [h2.2] at this
+          exact ⟨this.1, this.2 hpf⟩
+        by_cases c4 : (inSt k data regular).flushSeg = true
+        · rw [if_pos c4] at hp ⊢; exact Or.inr (hfl true hp)
+        · rw [if_neg c4] at hp ⊢
+          by_cases c5 : (inK2 k data regular now).acklist.length ≥ ((inK2 k data regular now).mtu / u32 IKCP_OVERHEAD).toNat
+          · rw [if_pos c5] at hp ⊢; exact Or.inr (hfl false hp)
+          · rw [if_neg c5] at hp ⊢
+            by_cases c6 : ackNoDelay = true ∧ (inK2 k data regular now).acklist.length > 0
+            · rw [if_pos c6] at hp ⊢; exact Or.inr (hfl false hp)
+            · rw [if_neg c6]; exact Or.inl h2.1
+
+/-! ### `reopen_announced` -/
+
+/-- A successful `Recv` that starts with a full delivery queue (`|rcv_queue| ≥ rcv_wnd`, the
+advertised window was 0) and ends below `rcv_wnd` sets ASK_TELL, so the next flush announces the
+re-opened window without waiting for a probe. -/
+theorem C03_reopen_announced (k : Kcp) (buflen : Nat) (hok : (recv k buflen).n ≥ 0)
+    (hfull : k.rcv_queue.length ≥ k.rcv_wnd.toNat)
+    (hopen : (recv k buflen).k.rcv_queue.length < (recv k buflen).k.rcv_wnd.toNat) :
+    (recv k buflen).k.probe = k.probe ||| u32 IKCP_ASK_TELL ∧
+    (recv k buflen).k.probe &&& u32 IKCP_ASK_TELL ≠ 0 := by
+  have h : (recv k buflen).k.probe = k.probe ||| u32 IKCP_ASK_TELL := by
+    unfold recv at hok hopen ⊢
+    simp only [] at hok hopen ⊢
+    by_cases c1 : k.peekSize < 0
+    · rw [if_pos c1] at hok; simp at hok
+    · rw [if_neg c1] at hok hopen ⊢
+      by_cases c2 : k.peekSize > (buflen : Int)
+      · rw [if_pos c2] at hok; simp at hok
+      · rw [if_neg c2] at hopen ⊢
+        by_cases c3 : (moveReady { k with rcv_queue := (popMsg k.rcv_queue).rest }).rcv_queue.length <
+            (moveReady { k with rcv_queue := (popMsg k.rcv_queue).rest }).rcv_wnd.toNat ∧
+            decide (k.rcv_queue.length ≥ k.rcv_wnd.toNat) = true
+        · rw [if_pos c3]; rfl
+        · rw [if_neg c3] at hopen
+          exact absurd ⟨hopen, by simpa using hfull⟩ c3
+  exact ⟨h, by rw [h]; exact tell_or _⟩
+
+/-- non-vacuity: window 1, one queued message; reading it re-opens the window -/
+example : (recv { Kcp.new 1 with rcv_wnd := 1, rcv_queue := [{ data := [1] }] } 10).k.probe = 2 := by decide
+
+/-! ### `window_learned` -/
+
+/-- Every segment of a REGULAR datagram that passes the header checks — any of the four commands,
+any `una`, `sn`, window state, duplicate or not — sets `rmt_wnd := wnd`; segments recovered by FEC
+(`regular = false`) never touch `rmt_wnd`. -/
+theorem C03_window_learned (regular : Bool) (conv : U32) (cmd frg : BitVec 8) (wnd : BitVec 16) (ts sn una : U32)
+    (payload : Bytes) (st : InLoop) :
+    (inStep regular conv cmd frg wnd ts sn una payload st).k.rmt_wnd =
+      if regular then wnd.setWidth 32 else st.k.rmt_wnd := by
+  obtain ⟨_, _, _, _, _, _, _, hf⟩ := inStep_frame regular conv cmd frg wnd ts sn una payload st
+  rw [hf]
+
+/-! ### `throttled_admits_nothing` -/
+
+/-- With `rmt_wnd = 0` the effective window of phase 4 is 0 whatever `snd_wnd`, `cwnd`, `nocwnd`
+are, and a flush of either type admits nothing: `snd_queue` and `snd_nxt` are unchanged, no segment
+is appended to `snd_buf`, and an ack-only flush leaves `snd_buf` itself unchanged.  Explicit
+hypothesis: `snd_nxt` is not behind `snd_una` in the signed comparison the code uses (fewer than
+2^31 segments in flight). -/
+theorem C03_throttled_admits_nothing (k : Kcp) (full : Bool) (now : U32) (h0 : k.rmt_wnd = 0)
+    (hfl : itimediff k.snd_nxt k.snd_una ≥ 0) :
+    (∀ conv q buf c, admitSegs conv k.snd_una 0 now q buf k.snd_nxt c = ⟨q, buf, k.snd_nxt, c⟩) ∧
+    flAd k now = ⟨k.snd_queue, k.snd_buf, k.snd_nxt, 0⟩ ∧
+    (flush k full now).k.snd_queue = k.snd_queue ∧ (flush k full now).k.snd_nxt = k.snd_nxt ∧
+    (flush k full now).k.snd_buf.length = k.snd_buf.length ∧
+    (flush k false now).k.snd_buf = k.snd_buf := by
+  have hz : ∀ conv q buf c, admitSegs conv k.snd_una 0 now q buf k.snd_nxt c = ⟨q, buf, k.snd_nxt, c⟩ := by
+    intro conv q buf c
+    exact admitSegs_closed conv k.snd_una 0 now q buf k.snd_nxt c (by rw [show k.snd_una + 0 = k.snd_una from by bv_omega]; exact hfl)
+  have had : flAd k now = ⟨k.snd_queue, k.snd_buf, k.snd_nxt, 0⟩ := by
+    obtain ⟨pw, tp, h3⟩ := flF3_frame k now
+    unfold flAd
+    have he : effWnd (flF3 k now).k = 0 := effWnd_zero _ (by rw [h3]; exact h0)
+    rw [he, h3]
+    exact hz _ _ _ _
+  obtain ⟨_, _, _, _, _, _, hk⟩ := flush_frame k full now
+  obtain ⟨_, _, _, _, _, _, hk'⟩ := flush_frame k false now
+  obtain ⟨pw, tp, h4⟩ := flF4_frame k now
+  refine ⟨hz, had, by rw [hk, had], by rw [hk, had], ?_, ?_⟩
+  · rw [hk]
+    show (flX k full now).done.length = _
+    cases full
+    · rw [flX_ackonly, h4, had]
+    · have hd := (flX_full k now).done
+      rw [hd, h4, had]; simp
+  · rw [hk']
+    show (flX k false now).done = _
+    rw [flX_ackonly, h4, had]
+
+/-- non-vacuity: a throttled sender with queued data -/
+example : (flush { Kcp.new 1 with rmt_wnd := 0, snd_queue := [{ data := [1] }] } true 0).k.snd_queue.length = 1 := by
+  decide
+
+/-! ### `no_ack_without_store` -/
+
+/-- For every PUSH that passes the header checks (so `payload.length ≤ mtuLimit`), in every state:
+* at or beyond the top of the window: NOT acknowledged, receive side untouched;
+* otherwise acknowledged, and exactly one of
+  - already delivered (`sn` before `rcv_nxt`): receive side untouched,
+  - already held in `rcv_buf`: buffered ∪ queued segments unchanged,
+  - new: the segment is stored — `rcv_queue ++ rcv_buf` afterwards is the old `rcv_queue` followed
+    by `rcv_buf` with the segment inserted — and there is no panic.
+There is no branch that acknowledges and drops a new in-window segment. -/
+theorem C03_no_ack_without_store (regular : Bool) (conv : U32) (cmd frg : BitVec 8) (wnd : BitVec 16) (ts sn una : U32)
+    (payload : Bytes) (st : InLoop) (hc : cmd.toNat = IKCP_CMD_PUSH) (hlen : payload.length ≤ mtuLimit) :
+    let k' := (inStep regular conv cmd frg wnd ts sn una payload st).k
+    (¬ itimediff sn (st.k.rcv_nxt + st.k.rcv_wnd) < 0 ∧ k'.acklist = st.k.acklist ∧
+      k'.rcv_buf = st.k.rcv_buf ∧ k'.rcv_queue = st.k.rcv_queue ∧ k'.rcv_nxt = st.k.rcv_nxt) ∨
+    (itimediff sn (st.k.rcv_nxt + st.k.rcv_wnd) < 0 ∧ k'.acklist = st.k.acklist ++ [⟨sn, ts⟩] ∧
+      ((itimediff sn st.k.rcv_nxt < 0 ∧ k'.rcv_buf = st.k.rcv_buf ∧ k'.rcv_queue = st.k.rcv_queue) ∨
+       (itimediff sn st.k.rcv_nxt ≥ 0 ∧ st.k.rcv_buf.any (fun x => x.sn = sn) = true ∧
+          k'.rcv_queue ++ k'.rcv_buf = st.k.rcv_queue ++ st.k.rcv_buf) ∨
+       (itimediff sn st.k.rcv_nxt ≥ 0 ∧ st.k.rcv_buf.any (fun x => x.sn = sn) = false ∧
+          (inStep regular conv cmd frg wnd ts sn una payload st).panic = false ∧
+          pushSeg conv cmd frg wnd ts sn una payload ∈ k'.rcv_queue ++ k'.rcv_buf ∧
+          k'.rcv_queue ++ k'.rcv_buf =
+            st.k.rcv_queue ++ heapInsert (pushSeg conv cmd frg wnd ts sn una payload) st.k.rcv_buf))) := by
+  intro k'
+  have hp := inPre_rcv regular wnd una st.k
+  have hne : ¬ cmd.toNat = IKCP_CMD_ACK := by rw [hc]; decide
+  by_cases hw : itimediff sn (st.k.rcv_nxt + st.k.rcv_wnd) < 0
+  · right
+    refine ⟨hw, inStep_push_acklist regular conv cmd frg wnd ts sn una payload st hc hw, ?_⟩
+    have hk : k' = if itimediff sn (inPre regular wnd una st.k).rcv_nxt ≥ 0 then
+        (parseData { inPre regular wnd una st.k with acklist := (inPre regular wnd una st.k).acklist ++ [⟨sn, ts⟩] }
+          (pushSeg conv cmd frg wnd ts sn una payload)).k
+        else { inPre regular wnd una st.k with acklist := (inPre regular wnd una st.k).acklist ++ [⟨sn, ts⟩] } := by
+      show (inStep regular conv cmd frg wnd ts sn una payload st).k = _
+      rw [inStep_k, if_neg hne, if_pos hc, hp.1, hp.2.1, if_pos hw]
+    rw [hp.1] at hk
+    by_cases hn : itimediff sn st.k.rcv_nxt ≥ 0
+    · rw [if_pos hn] at hk
+      have hw' : itimediff (pushSeg conv cmd frg wnd ts sn una payload).sn
+          (({ inPre regular wnd una st.k with acklist := (inPre regular wnd una st.k).acklist ++ [⟨sn, ts⟩] } : Kcp).rcv_nxt +
+           ({ inPre regular wnd una st.k with acklist := (inPre regular wnd una st.k).acklist ++ [⟨sn, ts⟩] } : Kcp).rcv_wnd) < 0 := by
+        show itimediff sn ((inPre regular wnd una st.k).rcv_nxt + (inPre regular wnd una st.k).rcv_wnd) < 0
+        rw [hp.1, hp.2.1]; exact hw
+      have hn' : itimediff (pushSeg conv cmd frg wnd ts sn una payload).sn
+          ({ inPre regular wnd una st.k with acklist := (inPre regular wnd una st.k).acklist ++ [⟨sn, ts⟩] } : Kcp).rcv_nxt ≥ 0 := by
+        show itimediff sn (inPre regular wnd una st.k).rcv_nxt ≥ 0
+        rw [hp.1]; exact hn
+      cases hd : st.k.rcv_buf.any (fun x => x.sn = sn) with
+      | true =>
+        right; left
+        have hd' : ({ inPre regular wnd una st.k with acklist := (inPre regular wnd una st.k).acklist ++ [⟨sn, ts⟩] } : Kcp).rcv_buf.any
+            (fun x => x.sn = (pushSeg conv cmd frg wnd ts sn una payload).sn) = true := by
+          show (inPre regular wnd una st.k).rcv_buf.any (fun x => x.sn = sn) = true
+          rw [hp.2.2.2.2.1]; exact hd
+        have := parseData_dup _ _ hw' hn' hd'
+        refine ⟨hn, rfl, ?_⟩
+        rw [hk, this.2.2]
+        show (inPre regular wnd una st.k).rcv_queue ++ (inPre regular wnd una st.k).rcv_buf = _
+        rw [hp.2.2.2.2.1, hp.2.2.2.2.2]
+      | false =>
+        right; right
+        have hd' : ({ inPre regular wnd una st.k with acklist := (inPre regular wnd una st.k).acklist ++ [⟨sn, ts⟩] } : Kcp).rcv_buf.any
+            (fun x => x.sn = (pushSeg conv cmd frg wnd ts sn una payload).sn) = false := by
+          show (inPre regular wnd una st.k).rcv_buf.any (fun x => x.sn = sn) = false
+          rw [hp.2.2.2.2.1]; exact hd
+        have := parseData_store _ (pushSeg conv cmd frg wnd ts sn una payload) hw' hn' hd' hlen
+        have hcat : k'.rcv_queue ++ k'.rcv_buf =
+            st.k.rcv_queue ++ heapInsert (pushSeg conv cmd frg wnd ts sn una payload) st.k.rcv_buf := by
+          rw [hk, this.2.2]
+          show (inPre regular wnd una st.k).rcv_queue ++ heapInsert _ (inPre regular wnd una st.k).rcv_buf = _
+          rw [hp.2.2.2.2.1, hp.2.2.2.2.2]
+        refine ⟨hn, rfl, ?_, ?_, hcat⟩
+        · rw [inStep_eq, if_neg hne, if_pos hc, hp.1, hp.2.1, if_pos hw, if_pos hn]
+          simp only []
+          rw [this.1]
+        · rw [hcat]; exact List.mem_append_right _ (mem_heapInsert _ _)
+    · rw [if_neg hn] at hk
+      left
+      refine ⟨Int.not_le.mp hn, ?_, ?_⟩
+      · rw [hk]; exact hp.2.2.2.2.1
+      · rw [hk]; exact hp.2.2.2.2.2
+  · left
+    have hk : k' = inPre regular wnd una st.k := inStep_push_refused regular conv cmd frg wnd ts sn una payload st hc hw
+    refine ⟨hw, ?_, ?_, ?_, ?_⟩
+    · rw [hk]; exact hp.2.2.1
+    · rw [hk]; exact hp.2.2.2.2.1
+    · rw [hk]; exact hp.2.2.2.2.2
+    · rw [hk]; exact hp.1
+
+/-- non-vacuity: an out-of-order PUSH (sn 1) is acknowledged AND stored; with `rcv_wnd = 1` the same
+PUSH is beyond the window: not acknowledged, not stored -/
+example :
+    (input (Kcp.new 7) [7,0,0,0, 81,0, 32,0, 9,0,0,0, 1,0,0,0, 0,0,0,0, 1,0,0,0, 0xAA] true false 0).k.acklist = [⟨1, 9⟩] ∧
+    (input (Kcp.new 7) [7,0,0,0, 81,0, 32,0, 9,0,0,0, 1,0,0,0, 0,0,0,0, 1,0,0,0, 0xAA] true false 0).k.rcv_buf.map
+      (fun s => s.sn) = [1] ∧
+    (input { Kcp.new 7 with rcv_wnd := 1 } [7,0,0,0, 81,0, 32,0, 9,0,0,0, 1,0,0,0, 0,0,0,0, 1,0,0,0, 0xAA] true false 0
+      ).k.acklist = [] := by
+  decide
+
+/-! ### `probe_armed` at the level of `flush` and of reachable states -/
+
+/-- With `rmt_wnd = 0`, an armed probe timer that is due makes the SAME flush (either type) write a
+WASK header, multiplies `probe_wait` by 3/2 (capped, `nextProbeWait`) and re-arms the timer at
+`now + probe_wait`: probing never stops while the remote window is 0, whatever was lost. -/
+theorem C03_probe_wask_emitted (k : Kcp) (full : Bool) (now : U32) (h0 : k.rmt_wnd = 0) (h1 : k.probe_wait ≠ 0)
+    (h2 : itimediff now k.ts_probe ≥ 0) :
+    (flush k full now).k.probe_wait = nextProbeWait k.probe_wait ∧
+    (flush k full now).k.ts_probe = now + nextProbeWait k.probe_wait ∧
+    ((flush k full now).panic = false → ∃ pre post, (flush k full now).outs.flatten =
+      pre ++ encodeHdr k.conv (BitVec.ofNat 8 IKCP_CMD_WASK) 0 (wndUnused k) (flAck k).sc.ts (flAck k).sc.sn k.rcv_nxt 0
+        ++ post) :=
+  flush_wask k full now h0 h1 h2
+
+/-- `probe_wait ≤ IKCP_PROBE_LIMIT` (the hypothesis of `C03_probe_armed`) is kept by every operation
+with arbitrary arguments and holds in every state reachable from `NewKCP`. -/
+theorem C03_probe_wait_reachable (conv : U32) (ops : List Op) (k : Kcp) (op : Op) :
+    (k.probe_wait ≤ u32 IKCP_PROBE_LIMIT → (step k op).probe_wait ≤ u32 IKCP_PROBE_LIMIT) ∧
+    (run (Kcp.new conv) ops).probe_wait ≤ u32 IKCP_PROBE_LIMIT := by
+  have hfl : ∀ (k : Kcp) full now, k.probe_wait ≤ u32 IKCP_PROBE_LIMIT →
+      (flush k full now).k.probe_wait ≤ u32 IKCP_PROBE_LIMIT := by
+    intro k full now h
+    rcases flush_pw k full now with e | e | e | e
+    · rw [e]; simp only [u32, IKCP_PROBE_LIMIT]; decide
+    · rw [e]; simp only [u32, IKCP_PROBE_LIMIT, IKCP_PROBE_INIT]; decide
+    · rw [e]; exact (C03_nextProbeWait_bounds _ h).2
+    · rw [e]; exact h
+  have hstep : ∀ (k : Kcp) (op : Op), k.probe_wait ≤ u32 IKCP_PROBE_LIMIT →
+      (step k op).probe_wait ≤ u32 IKCP_PROBE_LIMIT := by
+    intro k op h
+    cases op with
+    | send b => show (send k b).k.probe_wait ≤ _; rw [send_pw]; exact h
+    | recv n => show (recv k n).k.probe_wait ≤ _; rw [recv_pw]; exact h
+    | input d r a now => exact input_pw (fun w => w ≤ u32 IKCP_PROBE_LIMIT) hfl k d r a now h
+    | flush full now => exact hfl k full now h
+    | update now => exact update_pw (fun w => w ≤ u32 IKCP_PROBE_LIMIT) hfl k now h
+    | setMtu m => show (setMtu k m).1.probe_wait ≤ _; rw [setMtu_pw]; exact h
+    | noDelay nd iv rs nc => show (noDelay k nd iv rs nc).probe_wait ≤ _; rw [noDelay_pw]; exact h
+    | wndSize s r => show (wndSize k s r).probe_wait ≤ _; rw [wndSize_pw]; exact h
+  refine ⟨hstep k op, ?_⟩
+  have h0 : (Kcp.new conv).probe_wait ≤ u32 IKCP_PROBE_LIMIT := by
+    unfold Kcp.new; simp only [u32, IKCP_PROBE_LIMIT]; decide
+  generalize Kcp.new conv = k0 at h0
+  induction ops generalizing k0 with
+  | nil => exact h0
+  | cons op rest ih => rw [run_cons]; exact ih _ (hstep k0 op h0)
 
 end KcpVerif.Props
